@@ -2,6 +2,7 @@
 #![allow(unused, non_snake_case, non_camel_case_types, dead_code)]
 use vstd::prelude::*;
 use vstd::string::*;
+use std::sync::Arc;
 verus! {
 //@include prelude/core.rs
 //@include prelude/strings.rs
